@@ -708,11 +708,16 @@ impl RefPos {
         p.fen()
     }
 
-    /// Own FEN reader (strict enough for the curated roots; not the subject of any property).
+    /// Own FEN reader, strict: exactly the standard syntax (single spaces, 4 or 6 fields, 8 ranks
+    /// each summing to 8, digits 1-8 never adjacent, castling letters in KQkq order, en-passant
+    /// square on rank 3/6 matching the side to move, numeric clocks).
     pub fn from_fen(fen: &str) -> Result<RefPos, String> {
-        let t: Vec<&str> = fen.split_whitespace().collect();
-        if t.len() < 4 {
-            return Err(format!("fen needs 4 fields: {fen}"));
+        let t: Vec<&str> = fen.split(' ').collect();
+        if t.len() != 4 && t.len() != 6 {
+            return Err(format!("fen needs 4 or 6 single-space separated fields: {fen}"));
+        }
+        if t.len() == 6 && (t[4].parse::<u32>().is_err() || t[5].parse::<u32>().is_err()) {
+            return Err(format!("clock fields are not numbers: {fen}"));
         }
         let mut p = RefPos::empty();
         let ranks: Vec<&str> = t[0].split('/').collect();
@@ -722,18 +727,24 @@ impl RefPos {
         for (i, rk) in ranks.iter().enumerate() {
             let r = 7 - i as i8;
             let mut f = 0i8;
+            let mut last_digit = false;
             for ch in rk.chars() {
-                if let Some(d) = ch.to_digit(10) {
-                    f += d as i8;
+                if ('1'..='8').contains(&ch) {
+                    if last_digit {
+                        return Err(format!("adjacent digits in {fen}"));
+                    }
+                    last_digit = true;
+                    f += ch as i8 - '0' as i8;
                 } else {
+                    last_digit = false;
                     let c = if ch.is_ascii_uppercase() { Col::W } else { Col::B };
-                    let k = match ch.to_ascii_lowercase() {
-                        'p' => Kind::P,
-                        'n' => Kind::N,
-                        'b' => Kind::B,
-                        'r' => Kind::R,
-                        'q' => Kind::Q,
-                        'k' => Kind::K,
+                    let k = match ch {
+                        'p' | 'P' => Kind::P,
+                        'n' | 'N' => Kind::N,
+                        'b' | 'B' => Kind::B,
+                        'r' | 'R' => Kind::R,
+                        'q' | 'Q' => Kind::Q,
+                        'k' | 'K' => Kind::K,
                         _ => return Err(format!("bad piece {ch} in {fen}")),
                     };
                     if f > 7 {
@@ -752,14 +763,24 @@ impl RefPos {
             "b" => Col::B,
             _ => return Err(format!("bad side in {fen}")),
         };
-        for ch in t[2].chars() {
-            match ch {
-                'K' => p.castle |= WK,
-                'Q' => p.castle |= WQ,
-                'k' => p.castle |= BK,
-                'q' => p.castle |= BQ,
-                '-' => {}
-                _ => return Err(format!("bad castling in {fen}")),
+        if t[2] != "-" {
+            let mut order = 0;
+            if t[2].is_empty() {
+                return Err(format!("empty castling field in {fen}"));
+            }
+            for ch in t[2].chars() {
+                let (bit, o) = match ch {
+                    'K' => (WK, 1),
+                    'Q' => (WQ, 2),
+                    'k' => (BK, 3),
+                    'q' => (BQ, 4),
+                    _ => return Err(format!("bad castling in {fen}")),
+                };
+                if o <= order {
+                    return Err(format!("castling letters out of order in {fen}"));
+                }
+                order = o;
+                p.castle |= bit;
             }
         }
         if t[3] != "-" {
